@@ -600,23 +600,26 @@ func gxzOperandEdgeCases(c *hx.Ctx, bin string) {
 		os.RemoveAll(dir)
 	}
 	// 3. many refused members under a small descriptor limit, then a good one
-	for _, mode := range []string{"compress-has-suffix", "decompress-target-exists"} {
+	for _, mode := range []string{"compress-has-suffix", "decompress-target-exists", "decompress-unrecognised"} {
 		dir := newDir()
 		var args []string
-		if mode == "decompress-target-exists" {
+		if mode != "compress-has-suffix" {
 			args = append(args, "-d")
 		}
 		comp := gxzEncode("xz", plain)
 		for i := 0; i < 120; i++ {
 			name := fmt.Sprintf("m%03d.xz", i)
 			os.WriteFile(filepath.Join(dir, name), comp, 0o644)
+			if mode == "decompress-unrecognised" {
+				os.WriteFile(filepath.Join(dir, name), []byte("neither xz nor lzma, just text\n"), 0o644)
+			}
 			if mode == "decompress-target-exists" {
 				os.WriteFile(filepath.Join(dir, fmt.Sprintf("m%03d", i)), []byte(preExisting), 0o644)
 			}
 			args = append(args, name)
 		}
 		good, goodTgt := "good.txt", "good.txt.xz"
-		if mode == "decompress-target-exists" {
+		if mode != "compress-has-suffix" {
 			good, goodTgt = "good.xz", "good"
 			os.WriteFile(filepath.Join(dir, good), comp, 0o644)
 		} else {
@@ -641,7 +644,7 @@ func gxzOperandEdgeCases(c *hx.Ctx, bin string) {
 		replay := map[string]any{"mode": mode, "exit": exit, "stderr_tail": hexHead(se.Bytes(), 300)}
 		done := false
 		if v, ok := after[goodTgt]; ok && strings.HasPrefix(v, "F:") {
-			if mode == "decompress-target-exists" {
+			if mode != "compress-has-suffix" {
 				done = v[2:] == string(plain)
 			} else {
 				dec, ok := decodeAny([]byte(v[2:]), "xz")
@@ -652,5 +655,105 @@ func gxzOperandEdgeCases(c *hx.Ctx, bin string) {
 			c.Violation(sig("refused-members-use-up-resources", mode), fmt.Sprintf("gxz with 120 refused members (%s) and 48 descriptors: exit %d, the good last member processed=%v; stderr tail: %.200s", mode, exit, done, se.String()), replay)
 		}
 		os.RemoveAll(dir)
+	}
+	// 4. the target name exists as a symbolic link (dangling, or to a file): "an existing target is
+	//    never overwritten without -f" - the directory entry is what exists
+	for _, tc := range []struct {
+		dec      bool
+		dangling bool
+	}{{false, true}, {true, true}, {false, false}, {true, false}} {
+		dir := newDir()
+		in, tgt := "a.txt", "a.txt.xz"
+		var args []string
+		if tc.dec {
+			in, tgt = "a.txt.xz", "a.txt"
+			args = []string{"-d"}
+			os.WriteFile(filepath.Join(dir, in), gxzEncode("xz", plain), 0o644)
+		} else {
+			os.WriteFile(filepath.Join(dir, in), plain, 0o644)
+		}
+		dest := "/nonexistent/verif-target"
+		if !tc.dangling {
+			dest = "elsewhere"
+			os.WriteFile(filepath.Join(dir, dest), []byte(preExisting), 0o644)
+		}
+		os.Symlink(dest, filepath.Join(dir, tgt))
+		run := runCli(bin, dir, append(args, in))
+		c.Count(1, 1)
+		what := fmt.Sprintf("dec=%v dangling=%v", tc.dec, tc.dangling)
+		l, lerr := os.Readlink(filepath.Join(dir, tgt))
+		_, ierr := os.Stat(filepath.Join(dir, in))
+		if run.exit == 0 || lerr != nil || l != dest || ierr != nil {
+			c.Violation(sig("link-at-target-overwritten", what), fmt.Sprintf("gxz %q where %s is a symbolic link to %s: exit %d, link still there=%v, input still there=%v (an existing target must not be replaced without -f)", run.argv, tgt, dest, run.exit, lerr == nil && l == dest, ierr == nil),
+				map[string]any{"argv": run.argv, "dangling": tc.dangling, "stderr": string(run.stderr)})
+		}
+		os.RemoveAll(dir)
+	}
+	// 5. the operand "-" (standard input, says the usage text) next to a file operand, without -c: the
+	//    file must be processed whatever happens to "-", and the process must end with status 0 or 1
+	for _, order := range []string{"dash-first", "dash-last"} {
+		dir := newDir()
+		os.WriteFile(filepath.Join(dir, "b.txt"), plain, 0o644)
+		argv := []string{"-", "b.txt"}
+		if order == "dash-last" {
+			argv = []string{"b.txt", "-"}
+		}
+		cmd := exec.Command(bin, argv...)
+		cmd.Dir = dir
+		cmd.Stdin = strings.NewReader("from standard input\n")
+		var so, se bytes.Buffer
+		cmd.Stdout, cmd.Stderr = &so, &se
+		err := cmd.Run()
+		exit := 0
+		if ee, ok := err.(*exec.ExitError); ok {
+			exit = ee.ExitCode()
+		}
+		after := snapshot(dir)
+		c.Count(1, 1)
+		dec, ok := decodeAny([]byte(strings.TrimPrefix(after["b.txt.xz"], "F:")), "xz")
+		if !ok || !bytes.Equal(dec, plain) || (exit != 0 && exit != 1) {
+			c.Violation(sig("dash-operand-stops-the-run", order), fmt.Sprintf("gxz %q: exit %d, b.txt processed=%v; stderr: %.200s", argv, exit, ok && bytes.Equal(dec, plain), se.String()),
+				map[string]any{"argv": argv, "exit": exit, "stderr": se.String()})
+		}
+		os.RemoveAll(dir)
+	}
+	// 6. operands whose names meet gxz's temporary names: the outcome must not depend on the order
+	for _, tc := range []struct {
+		dec  bool
+		a, b string
+	}{{true, "a.decompress.xz", "a.xz"}, {false, "a", "a.xz.compress"}} {
+		var outcome [2]string
+		for o := 0; o < 2; o++ {
+			dir := newDir()
+			names := []string{tc.a, tc.b}
+			for k, n := range names {
+				if tc.dec {
+					os.WriteFile(filepath.Join(dir, n), gxzEncode("xz", append([]byte{byte('0' + k)}, plain...)), 0o644)
+				} else {
+					os.WriteFile(filepath.Join(dir, n), append([]byte{byte('0' + k)}, plain...), 0o644)
+				}
+			}
+			if o == 1 {
+				names[0], names[1] = names[1], names[0]
+			}
+			var args []string
+			if tc.dec {
+				args = []string{"-d"}
+			}
+			run := runCli(bin, dir, append(args, names...))
+			after := snapshot(dir)
+			var keys []string
+			for k := range after {
+				keys = append(keys, k)
+			}
+			sort.Strings(keys)
+			outcome[o] = fmt.Sprint(run.exit, keys)
+			os.RemoveAll(dir)
+		}
+		c.Count(1, 1)
+		if outcome[0] != outcome[1] {
+			c.Violation(sig("operand-order-changes-outcome", tc.a+"+"+tc.b), fmt.Sprintf("gxz on %q and %q: exit status and directory afterwards are %s in this order and %s in the other (files are processed independently of one another)", tc.a, tc.b, outcome[0], outcome[1]),
+				map[string]any{"operands": []string{tc.a, tc.b}, "decompress": tc.dec, "first_order": outcome[0], "other_order": outcome[1]})
+		}
 	}
 }
